@@ -23,32 +23,11 @@ def run(ctx):
 
     # ------------------------------------------------------------------ C03-set-in-place
     ctx.rule("C03-set-in-place", "set! overwrites the designated binding in place")
-    from .c08 import scope_set_rule
-    # the decision table and the no-insert rule (reported under C08-unbound keys there); here: the write itself
-    f = fb.find("environment::LexicalScope::set")
-    writes = []
-    for b, i, s in f.stmts():
-        if s["k"] == "assign" and any(e["k"] == "deref" for e in s["place"]["proj"]) and not f.blocks[b]["cleanup"]:
-            writes.append((b, s))
-    p = Prov(f)
-    ok = False
-    for b, s in writes:
-        roots = {c for _, c in p.call_roots(s["place"]["local"])}
-        vr = p.arg_roots(s["rv"]["op"]) if s["rv"]["k"] == "use" else set()
-        ctx.inst("C03-set-in-place", "set/write", {"target_from": sorted(roots), "value_from_param": sorted(vr)})
-        if roots == {"std::collections::HashMap::get_mut"} and vr == {3}:
-            ok = True
-    if not ok:
-        ctx.report("C03-set-in-place", "set/write", "set does not store the new value through the &mut of the existing binding", where_of(f))
-    ins = [callee(t) for _, t in f.calls() if callee_matches(t, "HashMap::insert", "HashMap::entry", "LexicalScope::define", "HashMap::remove")]
-    if ins:
-        ctx.report("C03-set-in-place", "set/inserts", "set re-creates the binding (%s)" % ins, where_of(f))
-    gm = [(b, t) for b, t in f.calls() if callee_matches(t, "HashMap::get_mut")]
-    if gm:
-        key = p.arg_roots(gm[0][1]["args"][1])
-        src = mir.trace_place(f, gm[0][1]["args"][0])
-        if key != {2}:
-            ctx.report("C03-set-in-place", "set/key", "the binding is looked up under something other than `name`", where_of(f))
+    # semantics of set on a chain of three frames, for every subset of frames binding the name (scopes.py): exactly one
+    # store, of the new value, into the binding of the innermost frame that has the name; never an insert
+    from . import scopes
+    if scopes.table(ctx, fb, "C03-set-in-place", "set") < 8:
+        ctx.report("C03-set-in-place", "floor", "the scope-chain table of set was not evaluated")
 
     # ------------------------------------------------------------------ C03-no-frame-copy
     ctx.rule("C03-no-frame-copy", "frames are never deep-copied")
